@@ -38,6 +38,7 @@ impl Alphanumeric for String {
 
     fn _capitalize(&self) -> Self {
         let mut chars: Vec<char> = self.chars().collect();
+        if chars.is_empty() { return self.clone() }
         chars[0] = chars[0].to_uppercase().next().unwrap();
         chars.into_iter().collect()
     }
